@@ -494,7 +494,26 @@ enum Term {
     Other,
 }
 
-fn run_driver(t: &mut Tableau, kind: Kind, limit: i64, prefer: &[usize]) -> (Term, Option<f64>, Option<usize>) {
+struct DriverOut {
+    term: Term,
+    optimal_value: Option<f64>,
+    /// `variables_values()` of the returned optimal tableau
+    values: Option<Vec<f64>>,
+    /// rendering of every recorded step of `solve_step_by_step` (the tableau before the pivot)
+    steps: Option<Vec<String>>,
+}
+
+fn run_driver(t: &mut Tableau, kind: Kind, limit: i64, prefer: &[usize]) -> DriverOut {
+    let fail = |e: SimplexError| DriverOut {
+        term: match e {
+            SimplexError::Unbounded => Term::Unbounded,
+            SimplexError::IterationLimitReached => Term::Limit,
+            SimplexError::Other => Term::Other,
+        },
+        optimal_value: None,
+        values: None,
+        steps: None,
+    };
     match kind {
         Kind::Solve | Kind::Avoid => {
             let r = if kind == Kind::Solve {
@@ -503,21 +522,23 @@ fn run_driver(t: &mut Tableau, kind: Kind, limit: i64, prefer: &[usize]) -> (Ter
                 t.solve_avoiding(limit, prefer)
             };
             match r {
-                Ok(o) => (Term::Finished, Some(o.optimal_value()), None),
-                Err(SimplexError::Unbounded) => (Term::Unbounded, None, None),
-                Err(SimplexError::IterationLimitReached) => (Term::Limit, None, None),
-                Err(SimplexError::Other) => (Term::Other, None, None),
+                Ok(o) => DriverOut {
+                    term: Term::Finished,
+                    optimal_value: Some(o.optimal_value()),
+                    values: Some(o.variables_values().clone()),
+                    steps: None,
+                },
+                Err(e) => fail(e),
             }
         }
         Kind::StepByStep => match t.solve_step_by_step(limit) {
-            Ok(o) => (
-                Term::Finished,
-                Some(o.result().optimal_value()),
-                Some(o.steps().len()),
-            ),
-            Err(SimplexError::Unbounded) => (Term::Unbounded, None, None),
-            Err(SimplexError::IterationLimitReached) => (Term::Limit, None, None),
-            Err(SimplexError::Other) => (Term::Other, None, None),
+            Ok(o) => DriverOut {
+                term: Term::Finished,
+                optimal_value: Some(o.result().optimal_value()),
+                values: Some(o.result().variables_values().clone()),
+                steps: Some(o.steps().iter().map(|s| s.to_string()).collect()),
+            },
+            Err(e) => fail(e),
         },
     }
 }
@@ -536,7 +557,14 @@ fn drive(
     at: &str,
 ) -> Term {
     let before = t.clone();
-    let (term, optimal_value, steps_len) = run_driver(t, kind, limit, prefer);
+    let DriverOut {
+        term,
+        optimal_value,
+        values,
+        steps,
+    } = run_driver(t, kind, limit, prefer);
+    // renderings of the states before each pivot, as a recorded step shows them
+    let mut state_strings: Vec<String> = vec![before.to_string()];
     // enumerate the intermediate states
     const DENSE: i64 = 48;
     let mut j: i64 = 1;
@@ -548,7 +576,7 @@ fn drive(
     let mut sampled = false;
     while j <= limit {
         let mut cl = before.clone();
-        let (tj, _, _) = run_driver(&mut cl, kind, j, prefer);
+        let tj = run_driver(&mut cl, kind, j, prefer).term;
         if tj != Term::Limit {
             // the trace ended with j-1 pivots; `cl` is the terminal state
             if fingerprint(&cl) != last_state_fp {
@@ -580,6 +608,7 @@ fn drive(
             }
             pivots = j;
             last_state_fp = fingerprint(&cl);
+            state_strings.push(cl.to_string());
             j += 1;
             if j > DENSE && j <= limit {
                 sampled = true;
@@ -622,11 +651,31 @@ fn drive(
                     );
                 }
             }
-            if let Some(n) = steps_len {
-                if n as i64 != pivots {
+            if let Some(steps) = &steps {
+                if steps.len() as i64 != pivots {
                     ctx.v(
                         "step-record",
-                        format!("{at}: solve_step_by_step recorded {n} steps for a trace of {pivots} pivots"),
+                        format!("{at}: solve_step_by_step recorded {} steps for a trace of {pivots} pivots", steps.len()),
+                    );
+                } else if let Some(i) = (0..steps.len()).find(|i| steps[*i] != state_strings[*i]) {
+                    ctx.v(
+                        "step-record",
+                        format!("{at}: recorded step {i} does not show the tableau the pivot was made from"),
+                    );
+                }
+            }
+            if let Some(vals) = &values {
+                // the returned values are the basic solution of the final tableau
+                let mut want = vec![0.0; t.c_vec().len()];
+                for (row, col) in t.in_basis().iter().enumerate() {
+                    want[*col] = t.b_vec()[row];
+                }
+                if vals.len() != want.len()
+                    || vals.iter().zip(&want).any(|(a, b)| (a - b).abs() > TOL * b.abs().max(1.0))
+                {
+                    ctx.v(
+                        "returned-values",
+                        format!("{at}: variables_values() = {vals:?} but the final basic solution is {want:?}"),
                     );
                 }
             }
